@@ -9,8 +9,11 @@ package app
 //@ props C09 C19 C20
 //@ at entry: ghost runCalls = runCalls + 1
 //@ requires a.Options != nil && runner != nil && TasksInv(spokfile) && I01(cp(spokfile)) && spokfile.Globs != nil && GlobsCurrent(spokfile)
-//@ modifies fexists, fdata, last, ranCount, dagV, dagE, dagItem, dagN, qpos, lastGraph, runPhase, mapOf(spokfile.Globs), lastResults, fswrites, runCalls
+//@ modifies fexists, fdata, last, ranCount, dagV, dagE, dagItem, dagN, qpos, lastGraph, runPhase, mapOf(spokfile.Globs), lastResults, fswrites, runCalls, stdoutDocs
 //@ ensures runCalls == old(runCalls) + 1
+//@ at call Println#0: ghost stdoutDocs = snoc(stdoutDocs, text)
+//@ ensures [C20,json-report-printed-once-after-a-run-without-failures] a.Options.JSON && result == nil ==> stdoutDocs == snoc(old(stdoutDocs), resultsJSON(lastResults))
+//@ ensures [C20,nothing-else-goes-to-the-process-stdout] !a.Options.JSON || result != nil ==> stdoutDocs == old(stdoutDocs)
 //@ ensures [C19,writes-only-inside-the-cache-directory] forall p string :: {fswrites[p]} fswrites[p] && !old(fswrites)[p] ==> ancOrSelf(join2(spokfile.Dir, ".spok"), p)
 //@ at return Run#0: ghost lastResults = results
 //@ ensures [C09,failing-command-fails-action] result == nil ==> tasksOk(lastResults, len(lastResults))
@@ -65,11 +68,12 @@ package app
 //@ func (*App).handleClean
 //@ props C12 C19 C09
 //@ requires a.Options != nil && runner != nil && TasksInv(spokfile) && I01(cp(spokfile)) && spokfile.Globs != nil && GlobsCurrent(spokfile)
-//@ modifies removed, fexists, fdata, last, ranCount, dagV, dagE, dagItem, dagN, qpos, lastGraph, runPhase, mapOf(spokfile.Globs), lastResults, fswrites, runCalls
+//@ modifies removed, fexists, fdata, last, ranCount, dagV, dagE, dagItem, dagN, qpos, lastGraph, runPhase, mapOf(spokfile.Globs), lastResults, fswrites, runCalls, stdoutDocs
 //@ ensures [C12,user-clean-task-runs-instead] dom(spokfile.Tasks, "clean") ==> removed == old(removed)
 //@ ensures [C12,only-designated-paths-removed] forall p string :: {removed[p]} removed[p] && !old(removed)[p] ==> Des(spokfile, p) && p != spokfile.Path && !ancOrSelf(p, spokfile.Dir)
 //@ ensures [C19,clean-removes-or-writes-the-cache] forall p string :: {fswrites[p]} fswrites[p] && !old(fswrites)[p] ==> removed[p] || ancOrSelf(join2(spokfile.Dir, ".spok"), p)
 //@ ensures [C09,failing-command-fails-action] result == nil && runCalls != old(runCalls) ==> tasksOk(lastResults, len(lastResults))
+//@ ensures [C20,nothing-else-goes-to-the-process-stdout] (!a.Options.JSON || result != nil) ==> stdoutDocs == old(stdoutDocs)
 
 // ---- C19 / C20: the other actions ----
 
@@ -128,17 +132,21 @@ package app
 //@ func (*App).handleDefault
 //@ props C19 C20 C09
 //@ requires a.Options != nil && runner != nil && TasksInv(spokfile) && I01(cp(spokfile)) && spokfile.Globs != nil && GlobsCurrent(spokfile)
-//@ modifies fexists, fdata, last, ranCount, dagV, dagE, dagItem, dagN, qpos, lastGraph, runPhase, mapOf(spokfile.Globs), lastResults, fswrites, runCalls
+//@ modifies fexists, fdata, last, ranCount, dagV, dagE, dagItem, dagN, qpos, lastGraph, runPhase, mapOf(spokfile.Globs), lastResults, fswrites, runCalls, stdoutDocs, listed
 //@ ensures [C20,default-task-runs-when-defined] dom(spokfile.Tasks, "default") <==> runCalls == old(runCalls) + 1
 //@ ensures [C20,listing-otherwise] !dom(spokfile.Tasks, "default") ==> runCalls == old(runCalls) && fswrites == old(fswrites) && fdata == old(fdata) && fexists == old(fexists)
 //@ ensures [C19,writes-only-inside-the-cache-directory] forall p string :: {fswrites[p]} fswrites[p] && !old(fswrites)[p] ==> ancOrSelf(join2(spokfile.Dir, ".spok"), p)
 //@ ensures [C09,failing-command-fails-action] result == nil && runCalls != old(runCalls) ==> tasksOk(lastResults, len(lastResults))
+//@ ensures [C20,nothing-else-goes-to-the-process-stdout] (!a.Options.JSON || result != nil) ==> stdoutDocs == old(stdoutDocs)
 
 //@ func (*App).setup
-//@ props C19
+//@ props C19 C17
 //@ requires a.Options != nil
 //@ modifies a.logger, a.Options.Spokfile, foundDir, findReadErr
 //@ ensures result == nil ==> a.logger != nil
+//@ ensures [C17,search-starts-at-the-working-directory-and-stops-at-home] result == nil && old(a.Options.Spokfile) == "" ==> candidate(foundDir, cwdPathF(), homeDirF()) && hasSpok(fsid, foundDir) && a.Options.Spokfile == absOf(absOf(join2(foundDir, "spokfile")))
+//@ ensures [C17,nearest] result == nil && old(a.Options.Spokfile) == "" ==> forall d string :: {ancOrSelf(d, cwdPathF())} candidate(d, cwdPathF(), homeDirF()) && depth(d) > depth(foundDir) ==> !hasSpok(fsid, d)
+//@ ensures [C17,explicit-spokfile-is-used] result == nil && old(a.Options.Spokfile) != "" ==> a.Options.Spokfile == absOf(old(a.Options.Spokfile))
 
 // Run: the action dispatch. loadedOK is set when the spokfile has been read, parsed and loaded.
 //@ pred projCache(a *App) := join2(dirOf(a.Options.Spokfile), ".spok")
@@ -146,7 +154,7 @@ package app
 //@ props C19 C20 C09
 //@ requires a.Options != nil
 //@ requires [history-invariant] forall c string :: {fexists[c]} I01(c)
-//@ modifies a.stream, a.logger, a.Options.Spokfile, foundDir, findReadErr, taskIdx, loadedOK, removed, fexists, fdata, last, ranCount, dagV, dagE, dagItem, dagN, qpos, lastGraph, runPhase, lastResults, fswrites, runCalls, strmLeft, strmDone, strmExp, strmLastT, strmInput
+//@ modifies a.stream, a.logger, a.Options.Spokfile, foundDir, findReadErr, taskIdx, loadedOK, removed, fexists, fdata, last, ranCount, dagV, dagE, dagItem, dagN, qpos, lastGraph, runPhase, lastResults, fswrites, runCalls, stdoutDocs, listed, strmLeft, strmDone, strmExp, strmLastT, strmInput
 //@ at entry: ghost loadedOK = false
 //@ at return New#1: ghost loadedOK = (err == nil)
 //@ ensures [C19,init-writes-only-spokfile-and-gitignore] a.Options.Init ==> forall p string :: {fswrites[p]} fswrites[p] && !old(fswrites)[p] ==> p == initSpok() || p == initIgnore()
@@ -158,4 +166,6 @@ package app
 //@ ensures [C19,clean-removes-or-writes-the-cache] !a.Options.Init && !a.Options.Fmt && !a.Options.Variables && a.Options.Clean ==> forall p string :: {fswrites[p]} fswrites[p] && !old(fswrites)[p] ==> removed[p] || ancOrSelf(projCache(a), p)
 //@ ensures [C19,running-writes-only-inside-the-cache-directory] !a.Options.Init && !a.Options.Fmt && !a.Options.Variables && !a.Options.Clean && !a.Options.Show ==> forall p string :: {fswrites[p]} fswrites[p] && !old(fswrites)[p] ==> ancOrSelf(projCache(a), p)
 //@ ensures [C09,failing-command-fails-the-invocation] result == nil && runCalls != old(runCalls) ==> tasksOk(lastResults, len(lastResults))
+//@ ensures [C20,quiet-without-json-prints-nothing-to-the-process-stdout] !a.Options.JSON ==> stdoutDocs == old(stdoutDocs)
+//@ ensures [C20,json-report-only-after-a-run-without-failures] result != nil ==> stdoutDocs == old(stdoutDocs)
 //@ ensures [C20,tasks-run-only-for-run-actions] a.Options.Init || a.Options.Fmt || a.Options.Variables ==> runCalls == old(runCalls)
